@@ -27,6 +27,7 @@ type SpecEnv struct {
 	inOld  bool
 	errCtx string
 	at     *ssa.BasicBlock // for resolving local variable names (loop invariants)
+	entry  map[string]string // state at loop entry (loop clauses)
 	noLocals bool
 }
 
@@ -106,6 +107,17 @@ func (env *SpecEnv) expr(x *SExpr) SV {
 		return SV{t: g.StrLit(x.S), sort: "Str", gt: types.Typ[types.String]}
 	case "id":
 		return env.ident(x.S)
+	case "entry":
+		// state when the enclosing loop was entered (loop clauses only)
+		if env.entry == nil {
+			env.fail("entry(): only available in loop clauses")
+			return env.expr(x.Args[0])
+		}
+		saveCur, saveOld, saveIn := env.cur, env.old, env.inOld
+		env.cur, env.inOld = env.entry, false
+		r := env.expr(x.Args[0])
+		env.cur, env.old, env.inOld = saveCur, saveOld, saveIn
+		return r
 	case "old":
 		if env.inOld {
 			return env.expr(x.Args[0])
@@ -520,6 +532,9 @@ func (env *SpecEnv) storeKey(sd *StoreDecl, ks []SV) string {
 		return fmt.Sprintf("(be64enc %s)", as[0])
 	case sd.KeyFun == "byte0":
 		return fmt.Sprintf("(mk_%s (store ((as const (Array Int Int)) 0) 0 0) 1 false)", bs)
+	case sd.KeyFun == "strbytes":
+		g.DeclFun("str2bytes", []string{"Str"}, bs)
+		return fmt.Sprintf("(str2bytes %s)", as[0])
 	case strings.HasPrefix(sd.KeyFun, "str:"):
 		g.DeclFun("str2bytes", []string{"Str"}, bs)
 		return fmt.Sprintf("(str2bytes %s)", g.StrLit(strings.TrimPrefix(sd.KeyFun, "str:")))
@@ -764,6 +779,38 @@ func (env *SpecEnv) call(x *SExpr) SV {
 			break
 		}
 		return SV{t: fmt.Sprintf("(select %s %s)", env.state(name), argv(0).t), sort: "Bool"}
+	case "with": // with(structvalue, FieldName, newvalue): functional field update
+		if len(x.Args) == 3 && x.Args[1].Op == "id" {
+			a := argv(0)
+			st := g.structOf[a.sort]
+			if st != nil {
+				for i := 0; i < st.NumFields(); i++ {
+					if st.Field(i).Name() == x.Args[1].S {
+						nv := env.expr(x.Args[2])
+						return SV{t: g.FieldUpd(a.sort, st, i, a.t, nv.t), sort: a.sort, gt: a.gt}
+					}
+				}
+			}
+		}
+		env.fail("with(struct, Field, value): bad arguments")
+	case "marshal": // marshal(v): the protobuf encoding the codec produces for v
+		a := argv(0)
+		return SV{t: fmt.Sprintf("(%s %s)", marshalFun(g, a.sort), a.t), sort: bytesSort(g)}
+	case "rawsel": // rawsel(Store, keybytes): raw bytes stored under raw key bytes
+		a := argv(0)
+		if a.st == nil {
+			break
+		}
+		return SV{t: fmt.Sprintf("(select %s %s)", env.storeArr(a.st), argv(1).t), sort: bytesSort(g), gt: types.NewSlice(types.Typ[types.Uint8])}
+	case "keyinv": // keyinv(Store, keybytes): the argument the store's key constructor was applied to (inverse of an injective key function)
+		a := argv(0)
+		if a.st == nil || a.st.KeyFun == "" {
+			env.fail("keyinv: first argument must be a keyed store")
+			break
+		}
+		fn := "key_" + mangle(a.st.KeyFun)
+		env.e.r.v.declareKeyFun(g, fn, []string{sortStr})
+		return SV{t: fmt.Sprintf("(%s_inv0 %s)", fn, argv(1).t), sort: sortStr, gt: types.Typ[types.String]}
 	case "klt":
 		g.DeclFun("klt", []string{bytesSort(g), bytesSort(g)}, "Bool")
 		return SV{t: fmt.Sprintf("(klt %s %s)", argv(0).t, argv(1).t), sort: "Bool"}
